@@ -184,6 +184,22 @@ def validate(rec, source, path, tc_string, label):
     added = count_jaxtyped_loads(new_code) - count_jaxtyped_loads(orig_code)
     rec.count("compiled_code_decorator_counts_compared")
     if added != on + oc:
+        # the compiler drops unreachable definitions (`if 0:`) and duplicates `finally:` bodies: the number to expect
+        # in BYTECODE is what the harness's own ten-line rendition of the three documented additions compiles to
+        try:
+            ref = compile(source, path, "exec", ast.PyCF_ONLY_AST, dont_inherit=True)
+            for n in ast.walk(ref):
+                if isinstance(n, (ast.FunctionDef, ast.ClassDef)):
+                    d = ast.parse("jaxtyping.jaxtyped(typechecker=None)", mode="eval").body
+                    n.decorator_list.append(d) if isinstance(n, ast.FunctionDef) else n.decorator_list.insert(0, d)
+            ast.fix_missing_locations(ref)
+            expected_loads = count_jaxtyped_loads(compile(ref, path, "exec", dont_inherit=True)) - count_jaxtyped_loads(orig_code)
+        except Exception:
+            expected_loads = None
+        if expected_loads is not None and expected_loads == added:
+            rec.count("compiled_code_counts_explained_by_compiler")
+            added = on + oc
+    if added != on + oc:
         rec.violation("decorator-count", case, f"{label}: {on} defs + {oc} classes in the source but the code object the loader produced evaluates {added} added jaxtyped decorators", mechanism="compiled-code-misses-decorators" if added < on + oc else "compiled-code-has-extra-decorators")
         return False
     trees = [t for t in cap.trees if isinstance(t, ast.Module)]
